@@ -553,14 +553,21 @@ fn mark_item(item: &mut Item, infos: &mut Vec<FnInfo>) {
         }
         Item::Impl(i) => {
             let ty = type_last_ident(&i.self_ty);
-            let tr = i.trait_.as_ref().map(|(_, p, _)| path_last_ident(p));
+            // trait name with its generic arguments (distinguishes `Index<usize>` from `Index<&usize>`)
+            let tr = i.trait_.as_ref().map(|(_, p, _)| {
+                let seg = p.segments.last().unwrap();
+                match &seg.arguments {
+                    syn::PathArguments::None => seg.ident.to_string(),
+                    a => format!("{}{}", seg.ident, norm(&a.to_token_stream())),
+                }
+            });
             for it in i.items.iter_mut() {
                 if let ImplItem::Fn(f) = it {
                     let q = match &tr {
                         Some(t) => format!("{}.{}::{}", ty, t, f.sig.ident),
                         None => format!("{}::{}", ty, f.sig.ident),
                     };
-                    mark_fn(&q, &mut f.sig, Some(&mut f.block), tr.is_some(), tr.is_none(), infos);
+                    mark_fn(&q, &mut f.sig, Some(&mut f.block), tr.is_some(), true, infos);
                 }
             }
         }
